@@ -101,7 +101,10 @@ def generate(rng, tier):
             # the request waits through up to 25 empty reads: the reply is accepted iff at most 25 empties precede it
             exp = (_expected(call, ev) if not (body in ("R", "RB", "BL")) else "SKIP") if ne <= 25 else "FAIL"
         elif k < 0.5: ev = ["E", ("L", rng.choice(["!8 Err: unknown", nm + ",Err: 3", nm + ",Err: 3", nm + ",1,Err:", "Err:"]))]; fam = "errline"; exp = "FAIL"
-        elif k < 0.65: ev = ["E", ("L", rng.choice(["OK", "ZZ", (nm[::-1] + "x") if (len(nm) == 2 and nm[0] != nm[1]) else ("x" + nm), nm.lower() if nm.lower() != nm else "x" + nm]))]; fam = "wrongname"; exp = "FAIL"
+        elif k < 0.65:
+            wrong = [w for w in ["OK", "ZZ", (nm[::-1] + "x") if (len(nm) == 2 and nm[0] != nm[1]) else ("x" + nm), nm.lower() if nm.lower() != nm else "x" + nm]
+                     if not w.startswith(nm)]          # "OK" is not a wrong name for a request named O
+            ev = ["E", ("L", rng.choice(wrong))]; fam = "wrongname"; exp = "FAIL"
         elif k < 0.8: ev = ["E"] + ["E"] * rng.randint(0, 5) + ["F"]; fam = "readfault"; exp = "SKIP" if (not isq and nm.upper() in ("R", "RB", "BL")) else "FAIL"
         elif k < 0.88: ev = ["F"]; fam = "writefault"; exp = "SKIP" if (not isq and nm.upper() in ("R", "RB", "BL")) else "FAIL"
         else: ev = ["E", ("L", " " + reply + "  ")]; fam = "padded-reply"
